@@ -42,6 +42,13 @@ LEVEL_TEXT = (
     "and test the result. Validity of refined concrete meshes and repeated "
     "refinement histories are not decided (they follow from R3 + C11 for "
     "affine cells).")
+LEVEL_TEXT += (
+    " Added in the hunting round (defects found by independent agents "
+    "on the unchanged tree, DESIGN.md 9.4 / 9.6): "
+    "count-or-cells dispatch evaluated on argument kinds; delegating "
+    "and periodic classes; orientation flags of carried-over boundaries "
+    "and the diagonal lengths of the tetrahedral refinement (open "
+    "findings).")
 LEVEL_NOTE = ("Trusted: numpy hstack/vstack/mean semantics. For sorted "
               "triangles the children's local order is modelled by the "
               "invariant that a sorted parent (v0<v1<v2) numbers its new "
